@@ -89,7 +89,7 @@ def gen_ops(rng, nops):
             ops.append({"op": "eq", "h": h, "g": g, "g2": rng.randrange(NG), "mode": mode, "pick": rng.randrange(8)})
         elif r < 0.86:
             ops.append({"op": "ds_set", "h": h, "d": rng.randrange(ND), "name": rng.choice(["mesh", "part", "x"]),
-                        "what": rng.choice(["group", "group", "group", "array", "dict", "none"]), "g": g})
+                        "what": rng.choice(["group", "group", "group", "group", "array", "dict", "none", "dataset", "dataset_self", "class", "vector", "ndarray", "str"]), "g": g})
         elif r < 0.89:
             ops.append({"op": "ds_del", "h": h, "d": rng.randrange(ND), "name": rng.choice(["mesh", "part", "x"])})
         elif r < 0.92:
@@ -476,7 +476,10 @@ def execute(case, stats):
                     if val.name != name or getattr(val, "parent", None) is not W.ds[d]:
                         V(step, op, "rename", {"group_name": val.name, "parent_ok": getattr(val, "parent", None) is W.ds[d]})
                 else:
-                    junk = {"array": osy.Array(values=[1.0, 2.0]), "dict": {"a": 1}, "none": None}[op["what"]]
+                    # anything that is not a Datagroup -- including things that look like one (another Dataset, the class itself)
+                    junk = {"array": lambda: osy.Array(values=[1.0, 2.0]), "dict": lambda: {"a": 1}, "none": lambda: None,
+                            "dataset": lambda: osy.Dataset(), "dataset_self": lambda: W.ds[d], "class": lambda: osy.Datagroup,
+                            "vector": lambda: osy.Vector(x=[1.0, 2.0], y=[0.0, 1.0]), "ndarray": lambda: np.arange(3.0), "str": lambda: "mesh"}[op["what"]]()
                     before = list(W.ds[d].keys())
                     try:
                         W.ds[d][name] = junk
